@@ -25,6 +25,35 @@ after a serious attempt you can only find two that pass the test suite, deliver 
 (git checkout -- labtech) at the end."""
 
 
+HARMLESS = """You are helping to evaluate how a (separately built, hidden) checker reacts to HARMLESS changes of the Python library `labtech` (runs dataclass-defined experiment tasks as a dependency DAG across subprocesses, with per-type parallelism limits and on-disk result caching).
+
+You have your own scratch copy of the library at {wt} (source in {wt}/labtech, tests in {wt}/tests). Work ONLY inside {wt}. Never touch or read /repo or /verif. There is no network. Do not commit anything. Do NOT use `git stash`; to get back to the clean tree use `git -C {wt} checkout -- labtech`.
+
+How to run things so that YOUR copy of the source is used:
+  cd {wt} && PYTHONPATH={wt} /venv/bin/python -m pytest -q -p no:cacheprovider tests     (the existing suite, 103 tests, ~15 s)
+
+The property under study (it HOLDS on this tree and must STILL HOLD after your changes):
+
+{pid} - {title}
+{statement}
+
+YOUR TASK: produce THREE different behaviour-preserving refactorings of the code that implements this property (files under labtech/ only) — the kind of change a maintainer makes while tidying up: renaming local variables or private helpers, extracting or inlining a small helper function, reordering independent statements, replacing a loop by a comprehension or vice versa, an early return instead of nested ifs, an equivalent condition (`not a or b` vs `b if a else True`), `len(x) == 0` vs `not x`, a different but equivalent container idiom, adding type hints, comments or docstrings, reformatting. Each refactoring should touch between 3 and 25 lines in the functions most relevant to the property (touch the real logic, not only comments), must keep the observable behaviour of the library EXACTLY the same for every input, schedule and fault, and must keep the whole test suite passing. Make the three refactorings touch different functions.
+
+Deliver them as {wt}/out/r1/, {wt}/out/r2/, {wt}/out/r3/, each holding patch.diff (output of `git -C {wt} diff -- labtech` relative to the CLEAN tree, so each patch applies on its own) and meta.json = {{"property": "{pid}", "summary": "<what was refactored and why it is behaviour-preserving>", "files_touched": [...]}}. For each one verify that the full test suite passes with it applied. Leave the worktree clean at the end. Report briefly what you did."""
+
+
+def main_harmless(root):
+    os.makedirs(root, exist_ok=True)
+    for l in open(os.path.join(VERIF, 'properties.jsonl')):
+        p = json.loads(l)
+        pid = p['id']
+        wt = f'{root}/{pid}'
+        subprocess.run(['git', '-C', '/repo', 'worktree', 'add', '-q', '--detach', wt, 'HEAD'], check=True)
+        os.makedirs(f'{wt}/out', exist_ok=True)
+        open(f'{wt}/out/PROMPT.txt', 'w').write(HARMLESS.format(wt=wt, pid=pid, title=p['title'], statement=p['statement']))
+    print('harmless prompts ready under', root)
+
+
 def main(root, prev_suffixes, mini=False):
     os.makedirs(root, exist_ok=True)
     for l in open(os.path.join(VERIF, 'properties.jsonl')):
@@ -73,4 +102,7 @@ Before finishing, VERIFY all of this yourself: (i) with the change applied the f
 
 
 if __name__ == '__main__':
+    if len(sys.argv) > 2 and sys.argv[2] == 'harmless':
+        main_harmless(sys.argv[1])
+        sys.exit(0)
     main(sys.argv[1], sys.argv[2].split(',') if len(sys.argv) > 2 else [], mini=(len(sys.argv) > 3 and sys.argv[3] == 'mini'))
